@@ -77,6 +77,8 @@ func (v Value) float64() float64 {
 		return float64(value)
 	case uint64:
 		return float64(value)
+	case float32:
+		return float64(value)
 	case float64:
 		return value
 	case string:
